@@ -164,10 +164,20 @@ def integer_data(rep: Report, rng: random.Random):
     import equinox as eqx
     import optax
     from flowjax.train import fit_to_data
-    for n, batch, vp in [(11, 3, 0.3), (8, 20, 0.25), (6, 1, 0.5)]:
+    for n, batch, vp, layout in [(11, 3, 0.3, "2d/2d"), (8, 20, 0.25, "2d/2d"), (6, 1, 0.5, "2d/2d"),
+                                 (9, 4, 0.3, "2d/1d"), (9, 4, 0.3, "1d/2d"), (7, 2, 0.3, "1d/1d"), (7, 3, 0.3, "3d/1d")]:
         ids = (2**24 + 1 + 2 * np.arange(n, dtype=np.int64)) * (2**30 if n == 11 else 1)          # odd, > 2^24; once > 2^53
         x = jnp.asarray(np.stack([ids, ids % 7], axis=1))
         cond = jnp.asarray((ids * 3 + 1)[:, None])
+        # rows that are scalars (a 1-D data array) or matrices: the loss must get them in the event shape they were given in
+        xl, cl = layout.split("/")
+        if xl == "1d":
+            x = x[:, 0]
+        if xl == "3d":
+            x = jnp.stack([x, x], axis=2)
+        if cl == "1d":
+            cond = cond[:, 0]
+        ev_x, ev_c = tuple(x.shape[1:]), tuple(cond.shape[1:])
         seen = []
 
         def rec(xb, cb):
@@ -176,7 +186,7 @@ def integer_data(rep: Report, rng: random.Random):
         def loss_fn(params, static, x, condition=None, key=None):
             jax.debug.callback(rec, x, condition, ordered=True)
             return (params[0] - 1.0) ** 2 + 0.0 * x.sum()
-        rep.count(1, ("integer-data", n, batch, vp))
+        rep.count(1, ("integer-data", n, batch, vp, layout))
         try:
             fit_to_data(jr.PRNGKey(n), (jnp.asarray(0.0),), x, condition=cond, loss_fn=loss_fn, max_epochs=2, batch_size=batch, val_prop=vp,
                         optimizer=optax.sgd(0.1), show_progress=False)
@@ -187,7 +197,15 @@ def integer_data(rep: Report, rng: random.Random):
         idset = {int(v): i for i, v in enumerate(ids)}
         for xb, cb in seen:
             bad = None
-            if not (np.issubdtype(xb.dtype, np.integer) and np.issubdtype(cb.dtype, np.integer)):
+            if tuple(xb.shape[1:]) != ev_x or tuple(cb.shape[1:]) != ev_c or xb.shape[0] != cb.shape[0]:
+                bad = (f"the loss received a batch of x with shape {xb.shape} and of the condition with shape {cb.shape}; the rows were "
+                       f"given with shapes {ev_x} and {ev_c}")
+            xb, cb = xb.reshape(xb.shape[0], -1), cb.reshape(cb.shape[0], -1)
+            if xl != "2d":          # bring the row to the (id, id % 7) layout the pairing test below reads
+                xb = np.stack([xb[:, 0], xb[:, 0] % 7], axis=1) if xl == "1d" else xb[:, [0, 2]]
+            if bad:
+                pass
+            elif not (np.issubdtype(xb.dtype, np.integer) and np.issubdtype(cb.dtype, np.integer)):
                 bad = f"the loss received dtypes {xb.dtype} / {cb.dtype} for integer data"
             else:
                 for r in range(xb.shape[0]):
@@ -196,8 +214,8 @@ def integer_data(rep: Report, rng: random.Random):
                         bad = f"row {xb[r].tolist()} with condition {cb[r].tolist()} is not a row of the data set with its own condition"
                         break
             if bad:
-                rep.violation({"data": "integer", "n": n, "batch": batch, "what": "rows handed to the loss"},
-                              f"fit_to_data(n={n}, batch_size={batch}, val_prop={vp}) with integer ids: {bad}")
+                rep.violation({"data": "integer", "n": n, "batch": batch, "layout": layout, "what": "rows handed to the loss"},
+                              f"fit_to_data(n={n}, batch_size={batch}, val_prop={vp}, x / condition given as {layout} arrays) with integer ids: {bad}")
                 break
 
 
